@@ -508,8 +508,18 @@ def absorb_aspects(rep, pid, t, recs, aspects, describe):
                 rep.violation('%s [%s]: %s' % (key, a, out.strip().splitlines()[-3:-1]), path)
             else:
                 rep.inconclusive('%s [%s]: counterexample does not reproduce natively: %s' % (key, a, out[-300:]))
-        if ('pure' in aspects) and (rec.get('shared') or rec.get('formula_changed')):
-            rep.inconclusive('%s: result object shared with K=%s, formula changed=%s' % (key, rec.get('shared'), rec.get('formula_changed')))
+        if ('pure' in aspects) and rec.get('formula_changed'):
+            body = ("f = mods[%r].Parser()(%r)\nbefore_f = str(f)\nr1 = run(%r, f, K)\nafter_f = str(f)\nr2 = run(%r, f, K)\n"
+                    "bad = []\nif after_f != before_f: bad.append('the formula object was modified: %%s -> %%s' %% (before_f, after_f))\n"
+                    "if r1 != r2: bad.append('repeating the call with the same formula object returns %%r then %%r' %% (r1, r2))\n"
+                    % (rec['logic'], rec['formula'], rec['logic'], rec['logic']))
+            path, out = mc.gen_replay(pid, rec, None, body, opts)
+            if path:
+                rep.violation('%s [formula object modified]: %s' % (key, out.strip().splitlines()[-3:-1]), path)
+            else:
+                rep.inconclusive('%s: the evaluator saw the formula object change but the native replay does not: %s' % (key, out[-200:]))
+        if ('pure' in aspects) and rec.get('shared'):
+            rep.inconclusive('%s: result object shared with K' % key)
         au = rec.get('audit')
         if au:
             rep.cov['audit_rewrites_total'] = rep.cov.get('audit_rewrites_total', 0) + au['total']
@@ -736,8 +746,20 @@ def run_c05(rep, tier):
     l1c = formulas.ltl_level1(formulas.ATOMS4)
     lv2 = formulas.ltl_paths(2)[2]
     paths = ['p', 'true', 'false'] + l1c + lv2[::(4 if tier == 'quick' else 1)] + towers
+    # every binary/n-ary operator over every pair of depth-1 operands (one instance per operator)
+    one_each = ['not p', 'X p', 'F q', 'G r', '(p and q)', '(q or r)', '(p --> r)', '(p U q)', '(q R r)']
+    for b in formulas.LTL_BI:
+        paths += [b % (x, y) for x in one_each for y in one_each]
+    paths += ['(%s and %s and %s)' % (x, y, z) for x in one_each[::2] for y in one_each[1::3] for z in one_each[2::4]]
+    paths += ['(%s or %s or %s)' % (x, y, z) for x in one_each[1::2] for y in one_each[::3] for z in one_each[3::4]]
+    paths += ['((p or q) or (q or r) or p)', '((p and q) and (r and p) and (q and r))', '(((p or q) or r) or (p or (q or r)))']
     paths += ['((p U q) R r)', '(F p --> G (q or X r))', '(p and q and r)', '(p or q or r)', 'not (p and not q and X r)', 'G F p', 'F G (p --> q)', '((p R q) U (q R r))']
     ctl = formulas.ctl_phi1() + formulas.ctl_pairs()[::(3 if tier == 'quick' else 1)] + formulas.ctl_phi2_quick()[::(9 if tier == 'quick' else 2)]
+    ctl_one = ['not p', 'A X p', 'E F q', 'A G q', '(p and q)', '(q or p)', '(p --> q)', 'A(p U q)', 'E(q R p)', 'E G p', 'A F q']
+    for b in formulas.CTL_BI:
+        ctl += [b % (formulas.par(x), formulas.par(y)) for x in ctl_one for y in ctl_one[::(2 if tier == 'quick' else 1)]]
+    ctl += ['(%s or %s or %s)' % (formulas.par(x), formulas.par(y), formulas.par(z)) for x in ctl_one[::3] for y in ctl_one[1::3] for z in ctl_one[2::3]]
+    ctl += ['((p or q) or (q or p) or p)', '((p and q) and (q and p))', '(((p or q) or p) or (p or (q or p)))']
     ctl += ['not not E X p', 'not not not A G p', '(p and q and A X p)', '(p or q or E G p)', 'not (p and not q)']
     ctls_state = ctls_set(tier)[::(2 if tier == 'quick' else 1)] + ['not not A F p', 'not not not E (p U q)']
     tasks = [('CTL', ch) for ch in chunks(ctl, 12)] + [('CTLS', ch) for ch in chunks(ctls_state, 6)] + [('CTLS', ch) for ch in chunks(paths, 10)] + [('LTL', ch) for ch in chunks(paths, 10)]
